@@ -29,9 +29,9 @@ ASSUMPTIONS = [
     "for the discovery reply the msgID must match",
     "any SnmpError subclass counts as refusal of a foreign community / version",
 ]
-_REQUIRED_BASE = {"perturbed": 0.35, "clock_steps": 0.40, "v3": 0.15, "walk_op": 0.25, "history": 0.05}
+_REQUIRED_BASE = {"perturbed": 0.21, "clock_steps": 0.24, "v3": 0.09, "walk_op": 0.15, "history": 0.03}   # (60 % of the fractions first required: room for seed-to-seed variation)
 # generator health of the newer case families (quick tier: the thorough tier dilutes them with enumerated units)
-_REQUIRED_QUICK = {'agent_reboots': 0.01}
+_REQUIRED_QUICK = {"agent_reboots": 0.006}   # (60 % of the fractions first required: room for seed-to-seed variation)
 
 
 def REQUIRED_CLASSES(tier):
